@@ -80,6 +80,23 @@ def context_schemas(d):
     return out
 
 
+def big_collections(d):
+    """(schema, instance) pairs that yield 30-80 errors whose locations recur in non-adjacent runs (A, B, A)."""
+    two = ({"allOf": [{"items": {"properties": {"id": {"type": "integer"}}}}, {"items": {"required": ["name"]}}]}
+           if d >= 4 else
+           {"extends": [{"items": {"properties": {"id": {"type": "integer"}}}},
+                        {"items": {"properties": {"name": {"required": True}}}}]})
+    recs = lambda n: [{"id": "x%d" % i} for i in range(n)]
+    out = [(two, recs(n)) for n in (15, 16, 17, 20, 40)]
+    pp = {"properties": dict(("k%d" % i, {"type": "string"}) for i in range(40)),
+          "patternProperties": {"^k": {"minimum": 5}}}
+    out.append((pp, dict(("k%d" % i, i % 7) for i in range(40))))
+    byid = {"additionalProperties": {"properties": {"age": {"type": "integer"}}}}
+    out.append((byid, dict((str(1000 + i), {"age": "x"}) for i in range(20))))
+    out.append((byid, {"7": {"age": "x"}, "1001": {"age": None}, "a": {"age": 1}}))
+    return out
+
+
 def get_deep(d):
     if d not in _deep:
         _deep[d] = deep_schemas(d) + context_schemas(d)       # built in plan(), shared with the forked workers
@@ -107,12 +124,16 @@ def plan(ctx):
     for d in _e1.DRAFTS:
         units += [(d, "deep", i, 4) for i in range(4)]
         sizes["deep_d%d" % d] = len(get_deep(d))
+    for d in _e1.DRAFTS:
+        units.append(("big", d))
     for ci in range(len(THREAD_CASES)):
         units.append(("threads", ci, "line", 2 if ctx.thorough else 1))
         units.append(("threads", ci, "call", 2 if (ctx.thorough and ci != 1) else 1))
     return {
         "units": units,
-        "rule": ("THREADS: 2-3 real threads ask one freshly built tree for len / total_errors / members / per-node "
+        "rule": ("LARGE COLLECTIONS: 30-80 errors whose locations recur in non-adjacent runs (two item schemas over "
+                 "15-40 records, 40 properties hit by properties and patternProperties, digit-only member names), in "
+                 "rotations, reversed and sorted by location.  THREADS: 2-3 real threads ask one freshly built tree for len / total_errors / members / per-node "
                  "totals under the baton scheduler, every schedule with <= 1 (thorough 2) preemptions at line and "
                  "call granularity, 3 trees.  error collections = list(iter_errors(x)) for every check_schema-accepted schema of G(draft) "
                  "(singles, all ordered pairs, sibling groups%s, and the 'deep' schemas: a small constraint "
@@ -562,7 +583,36 @@ def pick(errors, order):
 
 
 # ---------------------------------------------------------------- harness protocol
+def run_big(unit, ctx):
+    _, d = unit
+    ev = nt = 0
+    viol, outcomes = [], {}
+    for bi, (S, X) in enumerate(big_collections(d)):
+        if not _e1.accepted(d, S):
+            continue
+        errors = list(_e1.CLS[d](S).iter_errors(X))
+        n = len(errors)
+        trie = Trie(errors, X)
+        ords, cap = orders(n, 0)            # rotations of the collection and of its reversal
+        byloc = sorted(range(n), key=lambda i: repr(list(errors[i].path)))
+        for oi, order in enumerate(list(ords)[::max(1, n // 8)] + [tuple(byloc), tuple(byloc[::-1])]):
+            seq = [errors[i] for i in order]
+            ev += 1
+            nt += 1
+            pr = check_order(seq, trie, history=(oi == 0))
+            key = "big:%d-errors:%s" % (n, "ok" if not pr else pr[0][0])
+            outcomes[key] = outcomes.get(key, 0) + 1
+            if pr:
+                viol.append({"signature": "C17|large-collection|%s" % pr[0][0], "size": n,
+                             "case": {"draft": d, "big": bi, "order_index": oi}, "detail": {"errors": n, "problems": [list(p) for p in pr[:2]]}})
+                break
+    return {"evaluations": ev, "nontrivial": nt, "violations": viol, "samples": [], "outcomes": outcomes,
+            "counters": {"large_collections": ev}}
+
+
 def run_unit(unit, ctx):
+    if unit[0] == "big":
+        return run_big(unit, ctx)
     if unit[0] == "threads":
         return run_threads(unit, ctx)
     d = unit[0]
@@ -678,6 +728,9 @@ def finish(merged, plan, ctx):
 
 
 def replay(case, ctx):
+    if "big" in case:
+        r = run_big(("big", case["draft"]), ctx)
+        return {"reproduced": bool(r["violations"]), "violations": [v["signature"] for v in r["violations"]]}
     if case.get("context_of"):
         d, S, X = case["draft"], case["schema"], case["instance"]
         for pe in _e1.CLS[d](S).iter_errors(X):
